@@ -120,14 +120,14 @@ PLAN["C13"] = {
 
 PLAN["C01"]["quick"] += ["world_q_", "worldop_q_"]
 PLAN["C01"]["thorough"] += ["world_t_"]
-PLAN["C13"]["quick"] += ["world_q_", "allocc_q_", "tbl_q_", "allocs_q_", "worldop_q_"]
-PLAN["C13"]["thorough"] += ["world_t_", "allocc_t_", "tbl_t_", "allocs_t_"]
+PLAN["C13"]["quick"] += ["world_q_", "allocc_q_", "tbl_q_", "allocs_q_", "worldop_q_", "rows_q_"]
+PLAN["C13"]["thorough"] += ["world_t_", "allocc_t_", "tbl_t_", "allocs_t_", "rows_t_"]
 PLAN["C13"]["stubs"] = ["hashbrown -> /verif/models/hashbrown (E2) for the world_/allocc_ harnesses", "fnv -> constant hasher (hash values are ignored by the hashbrown model)"]
-PLAN["C02"]["quick"] += ["world_q_"]
+PLAN["C02"]["quick"] += ["world_q_", "worldop_q_"]
 PLAN["C02"]["thorough"] += ["allocc_"]
 PLAN["C04"]["quick"] += ["clone_q_", "clonefrom_q_"]
 PLAN["C04"]["thorough"] += ["clone_t_", "clonefrom_t_"]
-PLAN["C05"]["thorough"] += ["clone", "view_", "entryq_"]
+PLAN["C05"]["thorough"] += ["clone", "view_", "entryq_", "entries_"]
 
 PLAN["C03"] = {
     "quick": ["filt_q_", "view_q_", "entryq_q_", "entries_q_"],
@@ -140,10 +140,10 @@ PLAN["C03"] = {
 }
 
 PLAN["C10"] = {
-    "quick": ["clone_q_", "clonefrom_q_", "allocc_q_"],
+    "quick": ["clone_q_", "clonefrom_q_", "allocc_q_", "tbl_q_clone_"],
     "thorough": ["clone_t_", "clonefrom_t_", "allocc_t_"],
     "bounds": {"quick": "rows<=2 per side, slots<=3", "thorough": "rows<=3 per side, slots<=4; destination longer, equal, shorter; capacity sufficient and insufficient"},
-    "outside": ["Archetypes::clone/clone_from (table level) and World::clone beyond their archetype and allocator halves", "further histories on both worlds (covered only through the invariants the clone re-establishes)"],
+    "outside": ["Archetypes::clone of a table holding rows or more than one archetype, Archetypes::clone_from (table level), and World::clone beyond their archetype and allocator halves (Archetypes::clone of a one-archetype rowless table is checked: tbl_q_clone_)", "further histories on both worlds (covered only through the invariants the clone re-establishes)"],
     "stubs": ["hashbrown -> /verif/models/hashbrown (E2) for the identifier map of allocc_", "fnv -> constant hasher"],
     "level_text": "Bounded model checking of Archetype::clone/clone_from and Allocator::clone/clone_from: contents equal to the source row by row whatever the destination held, every buffer of the clone is its own allocation, dropping either side leaves the other intact, ledger shows replaced values dropped once and clones minted once; the allocator clone copies generations, liveness and free-list order and maps every location into the clone's own archetypes.",
     "level_note": KANI_NOTE + ARCH_NOTE,
@@ -190,10 +190,10 @@ PLAN["C15"] = {
 SERDE_STUBS = ["alloc::fmt::format -> empty String (error-message construction on serde error paths)", "hashbrown -> /verif/models/hashbrown (E2) where a table is involved", "fnv -> constant hasher", "serde data format -> the harness token back end (/verif/harness/serde_backend.rs): structs are written as plain sequences (field-name dispatch not exercised)"]
 
 PLAN["C06"] = {
-    "quick": ["serrt_q_", "allocde_q_", "identde_q_"],
-    "thorough": ["serrt_t_", "allocde_t_", "identde_t_"],
+    "quick": ["serrt_q_", "allocde_q_", "identde_q_", "allocser_q_"],
+    "thorough": ["serrt_t_", "allocde_t_", "identde_t_", "allocser_t_"],
     "bounds": {"quick": "archetype round trip: <=2 rows x <=3 columns, both encodings; allocator: 2 slots", "thorough": "archetype: 4-component registry with an absent component, empty archetype, empty component set; allocator: <=4 slots, free list <=2"},
-    "outside": ["whole-World round trip (Archetypes/World Serialize+Deserialize glue, resources)", "Allocator::serialize -> DeserializeAllocator round trip (does not finish in 900 s even for 2 slots; from_serialized_parts is checked on arbitrary input instead)", "worlds larger than the shapes", "the column-wise decoder with a zero-sized column (does not fit in 20 GB)", "field-name (map) form of struct encodings", "serde data formats themselves"],
+    "outside": ["whole-World round trip (Archetypes/World Serialize+Deserialize glue, resources)", "Allocator::serialize -> DeserializeAllocator round trip as one run (does not finish in 900 s even for 2 slots; the two directions are checked separately: allocser_ compares the written tokens with the slot table and free list, from_serialized_parts is checked on arbitrary input)", "worlds larger than the shapes", "the column-wise decoder with a zero-sized column (does not fit in 20 GB)", "field-name (map) form of struct encodings", "serde data formats themselves"],
     "stubs": SERDE_STUBS,
     "level_text": "Bounded model checking of brood's real Serialize and Deserialize impls against each other over a token back end: archetype (row-wise and column-wise) and identifier round trips reproduce identifiers and values row by row with independent ownership (ledger); Allocator::from_serialized_parts rebuilds exactly the slot table the given free list and stored identifiers describe (free-list order and generations of freed slots preserved).",
     "level_note": KANI_NOTE + ARCH_NOTE,
@@ -312,6 +312,10 @@ INPUTS = [
     ("entryq_", "symbolic cell values, identifiers and target row"),
     ("indices_", "no symbolic input: type-level computation executed and compared with registry positions"),
     ("par_", "symbolic cell values and two symbolic split indices (three pieces)"),
+    ("rows_", "symbolic cell values and identifiers; concrete component set and row count"),
+    ("tbl_", "no symbolic input: the table operations run on concrete shapes (deterministic)"),
+    ("worldop_", "symbolic component values; concrete slot table built by real inserts"),
+    ("entries_", "symbolic cell values, identifiers and which row is looked up; concrete shapes, views and filter"),
     ("world_", "symbolic payload of the inserted entity and a symbolic stale generation"),
     ("rsrc_", "symbolic resource values (u8, u16, u32) and written values"),
     ("batch_", "symbolic column lengths in 0..=3 (equal twin / some pair differs)"),
@@ -324,6 +328,7 @@ INPUTS = [
     ("serrt_", "symbolic cell values and identifiers; concrete shape and encoding"),
     ("serbad_", "symbolic cell values and identifiers; concrete damage (position / substituted token) from the instance name"),
     ("identde_", "symbolic identifier bytes"),
+    ("allocser_", "symbolic free list (which slots, in which order), generations and locations; concrete slot count, free count and ring-buffer rotation"),
     ("allocde_", "every identifier of the input symbolic (index < 8, any generation): free list and both identifier columns; concrete declared length"),
     ("bitwalk_", "symbolic identifier bytes with clear padding; concrete registry length"),
 ]
